@@ -157,6 +157,11 @@ pub trait Check: Sync {
     fn exhaustive(&self, _tier: Tier) -> bool {
         false
     }
+    /// does the check drive its receiver over `recv::drive` with the scenario itself, so that
+    /// other connections (recycled buffer, interleaved neighbours) can be added to its runs?
+    fn interference(&self) -> bool {
+        false
+    }
     /// narrow a scenario that enumerates many cases to the single case of `v`
     fn focus(&self, _sc: &Scenario, _v: &Violation) -> Option<Scenario> {
         None
@@ -177,7 +182,11 @@ pub fn master_seed() -> u64 {
 pub fn scenario_for(check: &dyn Check, master: u64, index: u64, tier: Tier) -> Scenario {
     let mut rng = Rng::new(run_seed(master, tag_of(check.id()), index));
     rng.index = index;
-    check.generate(&mut rng, index, tier)
+    let mut sc = check.generate(&mut rng, index, tier);
+    if check.interference() {
+        crate::checks::add_interference(&mut sc, index);
+    }
+    sc
 }
 
 pub struct BatchResult {
@@ -689,6 +698,68 @@ fn shrink_payload(p: &Payload) -> Vec<Payload> {
 /// Generic shrink candidates, most aggressive first.
 fn candidates(check: &dyn Check, sc: &Scenario) -> Vec<Scenario> {
     let mut out: Vec<Scenario> = Vec::new();
+    // --- other connections
+    if sc.recycled.is_some() || !sc.neighbors.is_empty() {
+        let mut c = sc.clone();
+        c.recycled = None;
+        c.neighbors.clear();
+        c.meta.retain(|(k, _)| k != "no_initial_parse");
+        out.push(c);
+        if sc.recycled.is_some() {
+            let mut c = sc.clone();
+            c.recycled = None;
+            c.meta.retain(|(k, _)| k != "no_initial_parse");
+            out.push(c);
+            if sc.meta("no_initial_parse").is_some() {
+                let mut c = sc.clone();
+                c.meta.retain(|(k, _)| k != "no_initial_parse");
+                out.push(c);
+            }
+        }
+        for i in 0..sc.neighbors.len() {
+            let mut c = sc.clone();
+            c.neighbors.remove(i);
+            out.push(c);
+        }
+        // fewer steps of the others: only the last cut, then drop cuts one at a time
+        let shrink_cuts = |n: &crate::scenario::Neighbor| -> Vec<crate::scenario::Neighbor> {
+            let mut v = Vec::new();
+            if n.cuts.len() > 1 {
+                let mut m = n.clone();
+                m.cuts = vec![*n.cuts.last().unwrap()];
+                v.push(m);
+                if n.cuts.len() <= 16 {
+                    for j in 0..n.cuts.len() {
+                        let mut m = n.clone();
+                        m.cuts.remove(j);
+                        v.push(m);
+                    }
+                }
+            }
+            if let Some(&last) = n.cuts.last() {
+                if last < n.stream.len() {
+                    let mut m = n.clone();
+                    m.stream.truncate(last);
+                    v.push(m);
+                }
+            }
+            v
+        };
+        if let Some(r) = &sc.recycled {
+            for m in shrink_cuts(r) {
+                let mut c = sc.clone();
+                c.recycled = Some(m);
+                out.push(c);
+            }
+        }
+        for (i, n) in sc.neighbors.iter().enumerate() {
+            for m in shrink_cuts(n) {
+                let mut c = sc.clone();
+                c.neighbors[i] = m;
+                out.push(c);
+            }
+        }
+    }
     // --- transport events
     if !sc.events.is_empty() {
         if sc.events.iter().any(|e| matches!(e, Ev::Eintr)) {
@@ -973,8 +1044,15 @@ fn weight(sc: &Scenario) -> (usize, usize, usize) {
     } else {
         0
     };
+    let others: usize = sc
+        .recycled
+        .iter()
+        .chain(sc.neighbors.iter())
+        .map(|n| 2000 + n.stream.len() + 50 * n.cuts.len())
+        .sum::<usize>()
+        + if sc.meta("no_initial_parse").is_some() { 1 } else { 0 };
     (
-        sc.stream.len() + ops_weight * 1000 + if sc.bufcap != 0 { 1 } else { 0 },
+        sc.stream.len() + ops_weight * 1000 + others + if sc.bufcap != 0 { 1 } else { 0 },
         sc.events.len(),
         byte_complexity + ops_text,
     )
@@ -1153,6 +1231,7 @@ pub fn run_check(check: &dyn Check, tier: Tier) -> Outcome {
     let report_start = Instant::now();
     let mut order_dependent_reported = 0u32;
     let mut order_dependent_skipped = 0u32;
+    let mut unreproducible = 0u32;
     for (index, v, count) in groups.iter().take(MAX_GROUPS) {
         let sc = scenario_for(check, master, *index, tier);
         let left = 150u64.saturating_sub(report_start.elapsed().as_secs());
@@ -1203,13 +1282,18 @@ pub fn run_check(check: &dyn Check, tier: Tier) -> Outcome {
                     }
                 }
                 None => {
+                    // keep going: another group may have a witness that does replay
                     eprintln!(
-                        "pppsim: harness error: the violation of run {} ({}) reproduces neither alone nor after the runs that preceded it, in a fresh process ({:?})",
+                        "pppsim: the violation of run {} ({}) reproduces neither alone nor after the runs that preceded it, in a fresh process ({:?})",
                         index,
                         v.signature(),
                         out.map(|o| o.status.code())
                     );
-                    std::process::exit(2);
+                    unreproducible += 1;
+                    if unreproducible >= 2 {
+                        order_dependent_reported = order_dependent_reported.max(3);
+                    }
+                    continue;
                 }
             }
         }
@@ -1388,6 +1472,13 @@ pub fn run_check(check: &dyn Check, tier: Tier) -> Outcome {
         stats.batch_digest,
         if res.truncated { " TRUNCATED" } else { "" }
     );
+    if exit_code == 0 && unreproducible > 0 {
+        eprintln!(
+            "pppsim: harness error: {} violation group(s) were seen in the batch but none could be reproduced from a replay file in a fresh process (neither alone nor after the runs that preceded it)",
+            unreproducible
+        );
+        return Outcome { exit_code: 2 };
+    }
     if exit_code == 0 && !missing.is_empty() {
         eprintln!(
             "pppsim: harness error: required probes never hit: {:?} (the workload must change)",
